@@ -152,6 +152,111 @@ fn env_matches(e: &Env, flat: &[(SegBits, usize)], j: usize) -> bool {
 
 pub enum RefOut { Word(CW, /*fired*/ u32), SkipAdjacentEqual }
 
+// ---- words with long segments: a run of equal segments inside a syllable is ONE segment (doc.md §Length). An input item matches the run as a
+// whole; a plain IPA output replaces it by one short segment, a matrix output changes every copy and keeps the length; in an environment a
+// matrix / group item stands for the whole run. What a plain IPA *environment* item does on a long segment is not documented (the
+// implementation steps over one copy): such cases are ambiguous and skipped.
+
+/// (segment, syllable index, copies)
+type Run = (SegBits, usize, usize);
+fn runs_of(w: &CW) -> Vec<Run> {
+    let mut v: Vec<Run> = vec![];
+    for (si, sy) in w.iter().enumerate() {
+        let mut i = 0;
+        while i < sy.segs.len() { let mut j = i + 1; while j < sy.segs.len() && sy.segs[j] == sy.segs[i] { j += 1; } v.push((sy.segs[i], si, j - i)); i = j; }
+    }
+    v
+}
+fn word_of_runs(w: &CW, runs: &[Run]) -> CW {
+    let mut out: CW = w.iter().map(|sy| CSyl { segs: vec![], stress: sy.stress, tone: sy.tone }).collect();
+    for (b, si, n) in runs { for _ in 0..*n { out[*si].segs.push(*b); } }
+    out
+}
+/// Some(matched) or None when an IPA item (or an IPA member of a set) is tried on a long run
+fn item_on_run(it: &It, r: &Run) -> Option<bool> {
+    match it {
+        It::Ipa(_, s) => if r.2 > 1 { None } else { Some(*s == r.0) },
+        It::Mat(..) => Some(it.matches_seg(r.0)),
+        It::Set(v) => { for m in v { match m { It::SyllB | It::WordB => {} sm => { if item_on_run(sm, r)? { return Some(true); } } } } Some(false) }
+        _ => Some(false),
+    }
+}
+fn before_matches_runs(items: &[It], flat: &[Run], j: usize) -> Option<bool> {
+    let mut k = j as isize - 1;
+    for it in items.iter().rev() {
+        match it {
+            It::WordB => { if k >= 0 { return Some(false); } }
+            It::SyllB => { if !(k < 0 || flat[k as usize].1 != flat[(k + 1) as usize].1) { return Some(false); } }
+            It::Set(v) if v.iter().any(|m| matches!(m, It::WordB | It::SyllB)) => {
+                let mut hit = false;
+                for m in v {
+                    match m {
+                        It::WordB => { if k < 0 { hit = true; break; } }
+                        It::SyllB => { if k < 0 || flat[k as usize].1 != flat[(k + 1) as usize].1 { hit = true; break; } }
+                        sm => { if k >= 0 && item_on_run(sm, &flat[k as usize])? { k -= 1; hit = true; break; } }
+                    }
+                }
+                if !hit { return Some(false); }
+            }
+            seg_it => { if k < 0 || !item_on_run(seg_it, &flat[k as usize])? { return Some(false); } k -= 1; }
+        }
+    }
+    Some(true)
+}
+fn after_matches_runs(items: &[It], flat: &[Run], j: usize) -> Option<bool> {
+    let n = flat.len();
+    let mut k = j + 1;
+    for it in items {
+        match it {
+            It::WordB => { if k < n { return Some(false); } }
+            It::SyllB => { if !(k >= n || flat[k].1 != flat[k - 1].1) { return Some(false); } }
+            It::Set(v) if v.iter().any(|m| matches!(m, It::WordB | It::SyllB)) => {
+                let mut hit = false;
+                for m in v {
+                    match m {
+                        It::WordB => { if k >= n { hit = true; break; } }
+                        It::SyllB => { if k >= n || flat[k].1 != flat[k - 1].1 { hit = true; break; } }
+                        sm => { if k < n && item_on_run(sm, &flat[k])? { k += 1; hit = true; break; } }
+                    }
+                }
+                if !hit { return Some(false); }
+            }
+            seg_it => { if k >= n || !item_on_run(seg_it, &flat[k])? { return Some(false); } k += 1; }
+        }
+    }
+    Some(true)
+}
+fn any_env_runs(envs: &[Env], flat: &[Run], j: usize) -> Option<bool> {
+    // every environment is evaluated, so that an ambiguous one is never hidden behind an earlier match
+    let mut any = false;
+    for e in envs { let b = before_matches_runs(&e.0, flat, j)?; let a = after_matches_runs(&e.1, flat, j)?; if b && a { any = true; } }
+    Some(any)
+}
+
+/// the same scan over runs; `SkipAdjacentEqual` now means: ambiguous (an IPA environment item on a long segment, or two equal
+/// neighbours created by the rewrite)
+pub fn apply_basic_runs(r: &BasicRule, w: &CW) -> RefOut {
+    let mut flat = runs_of(w);
+    let mut fired = 0;
+    for j in 0..flat.len() {
+        let b = flat[j].0;
+        if !r.input.matches_seg(b) { continue; }
+        let Some(ctx) = any_env_runs(&r.context, &flat, j) else { return RefOut::SkipAdjacentEqual };
+        let ctx_ok = r.context.is_empty() || ctx;
+        let Some(exc) = any_env_runs(&r.except, &flat, j) else { return RefOut::SkipAdjacentEqual };
+        if ctx_ok && !exc {
+            let out = match &r.output { OutIt::Set(v) => &v[r.input.set_index(b).expect("set output needs set input")], o => o };
+            let (nb, nl) = match out { OutIt::Ipa(_, s) => (*s, 1), o => (o.apply(b, None), flat[j].2) };
+            if (nb, nl) != (b, flat[j].2) { fired += 1; }
+            flat[j].0 = nb; flat[j].2 = nl;
+            // equal neighbours inside a syllable would merge into one longer segment
+            if j > 0 && flat[j - 1].1 == flat[j].1 && flat[j - 1].0 == nb { return RefOut::SkipAdjacentEqual; }
+            if j + 1 < flat.len() && flat[j + 1].1 == flat[j].1 && flat[j + 1].0 == nb { return RefOut::SkipAdjacentEqual; }
+        }
+    }
+    RefOut::Word(word_of_runs(w, &flat), fired)
+}
+
 /// Scan left to right; left context is read from the already rewritten prefix, right
 /// context from the not yet rewritten suffix; boundaries, stress, tone untouched.
 pub fn apply_basic(r: &BasicRule, w: &CW) -> RefOut {
